@@ -168,7 +168,12 @@ def gen_hint(rng):
     assigns = []
     for _ in range(k):
         name = gen_name(rng)
+        if rng.random() < 0.5:
+            name = rng.choice(["time_zone", "sql_mode", "max_execution_time", "sql_select_limit", "autocommit", "character_set_results"])
         lit = gen_lit(rng, type_of(name))
+        if rng.random() < 0.4:
+            # variable names are case-insensitive: the hint may spell them differently from the SET that came before
+            name = rng.choice([name.upper(), name.title(), name[:1].upper() + name[1:]])
         if lit.tok in ("X",) or lit.sql in ("default", "off", "-3", "utf8", "ON"):  # sqlglot does not see SET_VAR(x=ON) as an assignment
             lit = Lit("7", "i7")
         assigns.append((name, lit))
